@@ -58,22 +58,67 @@ def consumed(res, trace, f):
     return total, last
 
 
-def check_takeskip_step(R, F, cfg):
-    """the alternating take/skip iterator, one call of next() at a time (transition relation)"""
+_roles_cache = {}
+
+
+def takeskip_roles(R, F, cfg):
+    """the alternating take/skip iterator of graphics.rs and the roles of its fields, found from what next() does
+    with them (not from their names): R = the counter next() changes, T = the field whose value minus one restarts
+    the counter, S = the other integer, I = the wrapped iterator.  -> dict or None (reported)"""
+    if cfg in _roles_cache:
+        return _roles_cache[cfg]
+    _roles_cache[cfg] = None
     cands = [b for b in F.trait_impl_method(TR.ITER, "next") if b["container"]["self_ty"].get("def", "").startswith("mipidsi::graphics::")]
     if len(cands) != 1:
         R.undecided("C04-takeskip", "%s|anchor" % cfg, "the take/skip iterator of graphics.rs was not found exactly once (%d)" % len(cands))
-        return
+        return None
     rec = cands[0]
     adt = rec["container"]["self_ty"]["def"]
-    fields = [f["name"] for f in F.adts[adt]["variants"][0]["fields"]]
+    fdefs = F.adts[adt]["variants"][0]["fields"]
+    fields = [f["name"] for f in fdefs]
+    ints = [f["name"] for f in fdefs if f["ty"].get("k") == "int"]
+    others = [f["name"] for f in fdefs if f["ty"].get("k") != "int"]
     ex = R.executor(F)
     ex.no_merge = True
     res = R.run_entry(ex, rec)
+    changed = set()
+    finals = []
+    for o in res.outcomes:
+        if o.kind == "panic":
+            continue
+        d = C.deref_self(ex, o.state)
+        if isinstance(d, SymV):
+            d = ex.expand_sym(d)
+        cur = {n: d.fields[i] for i, n in enumerate(fields)}
+        finals.append((o, cur))
+        for n in ints:
+            if isinstance(cur[n], IntV) and o.state.facts.simplify(cur[n].poly()) != sym_int("*self.%s" % n, 32, False):
+                changed.add(n)
+    roles = None
+    if len(ints) == 3 and len(others) == 1 and len(changed) == 1:
+        r_ = next(iter(changed))
+        t_ = [n for n in ints if n != r_ and any(o.state.facts.simplify(cur[r_].poly()) == sym_int("*self.%s" % n, 32, False) - 1 for o, cur in finals)]
+        if len(t_) == 1:
+            s_ = [n for n in ints if n not in (r_, t_[0])][0]
+            roles = {"R": r_, "T": t_[0], "S": s_, "I": others[0]}
+    if roles is None:
+        R.undecided("C04-takeskip", "%s|roles" % cfg, "the iterator in graphics.rs does not have the take/skip shape: integer fields %s, "
+                    "fields changed by next(): %s" % (ints, sorted(changed)))
+        return None
+    _roles_cache[cfg] = {"rec": rec, "adt": adt, "fields": fields, "roles": roles, "ex": ex, "res": res}
+    return _roles_cache[cfg]
+
+
+def check_takeskip_step(R, F, cfg):
+    """the alternating take/skip iterator, one call of next() at a time (transition relation)"""
+    info = takeskip_roles(R, F, cfg)
+    if info is None:
+        return
+    rec, adt, fields, ro, ex, res = info["rec"], info["adt"], info["fields"], info["roles"], info["ex"], info["res"]
     tag = "%s|TakeSkip::next" % cfg
-    take = sym_int("*self.take", 32, False)
-    rem = sym_int("*self.take_remaining", 32, False)
-    skip = sym_int("*self.skip", 32, False)
+    take = sym_int("*self.%s" % ro["T"], 32, False)
+    rem = sym_int("*self.%s" % ro["R"], 32, False)
+    skip = sym_int("*self.%s" % ro["S"], 32, False)
     seen = set()
     for o in res.outcomes:
         if o.kind == "panic":
@@ -90,16 +135,20 @@ def check_takeskip_step(R, F, cfg):
         rem_zero = f.entails_ge0(-rem) is not None
         take_pos = f.entails_ge0(take - 1) is not None
         take_zero = f.entails_ge0(-take) is not None
-        new_rem = f.simplify(cur["take_remaining"].poly())
+        new_rem = f.simplify(cur[ro["R"]].poly())
+        yields_last = (isinstance(o.value, SymV) and o.value.name == last) or \
+                      (isinstance(o.value, Agg) and o.value.variant == 1 and last is not None and ("%s@Some" % last) in repr(o.value)) or \
+                      (isinstance(o.value, Agg) and o.value.variant == 0 and last is not None
+                       and f.simplify(Poly.atom(("var", last, 1, 2))).const_value() == 0)
         if rem_pos:
             seen.add("take")
-            ok = pulled == ONE and new_rem == rem - 1 and isinstance(o.value, SymV) and o.value.name == last
+            ok = pulled == ONE and new_rem == rem - 1 and yields_last
             R.ob("C04-takeskip-step", "%s|taking" % tag, ok,
                  "while colours of the current row remain, next() must yield exactly the next colour and decrement the row counter "
-                 "(events %s, remaining := %r)" % ([repr(s) for s in evs], new_rem), sample={"state": "take_remaining > 0", "events": [repr(s) for s in evs]})
+                 "(events %s, remaining := %r)" % ([repr(s) for s in evs], new_rem), sample={"state": "row counter > 0", "events": [repr(s) for s in evs]})
         elif rem_zero and take_pos:
             seen.add("skip")
-            ok = pulled is not None and pulled == skip + 1 and new_rem == take - 1 and isinstance(o.value, SymV) and o.value.name == last
+            ok = pulled is not None and pulled == skip + 1 and new_rem == take - 1 and yields_last
             R.ob("C04-takeskip-step", "%s|skipping" % tag, ok,
                  "at the end of a row next() must skip exactly `skip` colours, yield the following one and start a row of take-1 more "
                  "(events %s, remaining := %r)" % ([repr(s) for s in evs], new_rem), sample={"state": "row exhausted", "events": [repr(s) for s in evs]})
@@ -110,15 +159,21 @@ def check_takeskip_step(R, F, cfg):
         else:
             R.undecided("C04-takeskip", "%s|path" % tag, "path of TakeSkip::next not classified: %s" % [("%r" % p, v) for p, v in f.decisions()])
     R.ob("C04-takeskip-cases", "%s|cases" % tag, seen == {"take", "skip", "empty"}, "TakeSkip::next cases found: %s" % sorted(seen))
-    # constructor: take_remaining starts at take
+    # constructor: the counter starts at the per-row take; the arguments are (iterator, take, skip) in this order
     news = [b for b in F.inherent_method(adt, "new")]
     if len(news) == 1:
-        ex = R.executor(F)
-        r = C.run_pure(R, ex, news[0], "C04", "%s|TakeSkip::new" % cfg)
-        if r is not None and isinstance(r[0], Agg):
-            v = {n: r[0].fields[i] for i, n in enumerate(fields)}
-            ok = repr(v["take"].poly()) == "take" and repr(v["take_remaining"].poly()) == "take" and repr(v["skip"].poly()) == "skip"
-            R.ob("C04-takeskip-new", "%s|TakeSkip::new" % cfg, ok, "TakeSkip::new(iter, take, skip) builds %r" % (r[0],))
+        ex2 = R.executor(F)
+        a1, a2 = sym_int("arg-take", 32, False), sym_int("arg-skip", 32, False)
+        try:
+            res2 = R.run_entry(ex2, news[0], args=[None, IntV(32, False, p=a1), IntV(32, False, p=a2)])
+            rets = [o.value for o in res2.returns()]
+        except E.Undecided:
+            rets = []
+        ok = len(rets) == 1 and isinstance(rets[0], Agg)
+        if ok:
+            v = {n: rets[0].fields[i] for i, n in enumerate(fields)}
+            ok = all(isinstance(v[ro[k]], IntV) for k in "TRS") and v[ro["T"]].poly() == a1 and v[ro["R"]].poly() == a1 and v[ro["S"]].poly() == a2
+        R.ob("C04-takeskip-new", "%s|TakeSkip::new" % cfg, ok, "TakeSkip::new(iterator, take, skip) builds %r" % (rets[:1],))
 
 
 def run(R):
@@ -182,7 +237,12 @@ def check_clipped_stream(R, F, cfg, q, m):
                     continue
                 npaths["clipped"] += 1
                 names = [x["name"] for x in F.adts[ts.name]["variants"][0]["fields"]]
-                tsf = {n: ts.fields[i] for i, n in enumerate(names)}
+                info = takeskip_roles(R, F, cfg)
+                if info is None or info["adt"] != ts.name:
+                    continue
+                ro = info["roles"]
+                byname = {n: ts.fields[i] for i, n in enumerate(names)}
+                tsf = {"iter": byname[ro["I"]], "take": byname[ro["T"]], "take_remaining": byname[ro["R"]], "skip": byname[ro["S"]]}
                 want0 = (iy - ay) * aw + (ix - ax)
                 want = eq_subst(f, want0, ((iy, ay), (ix, ax)))
                 consumed_, _last = consumed(res, o.state.trace, f)
